@@ -37,6 +37,10 @@ BODIES = {
     "nested_inner_loop": "frame:preprocess('{{#invoke:c07aux|slow}}') return 'after'",
     "tail_recursion": "local function f() return f() end f()",
     "mutual_recursion": "local a, b; a = function() return b() end; b = function() return a() end; a()",
+    # recursion THROUGH pcall, in a loop: the recursion ends at the C-call limit with an ordinary error that the pcall one
+    # level up swallows, and nearly all instructions run at that depth
+    "pcall_recursion_in_loop": "local function f() while true do pcall(f) end end f()",
+    "xpcall_recursion_in_loop": "local function f() while true do xpcall(f, function(e) return e end) end end f()",
     "clear_hook": "if _lua_clear_timeout_hook then _lua_clear_timeout_hook() end while true do end",
     "rearm_hook": "if _lua_set_timeout then _lua_set_timeout(50) end while true do end",
     "clear_hook_in_loop": "while true do if _lua_clear_timeout_hook then _lua_clear_timeout_hook() end end",
@@ -55,7 +59,8 @@ QUICK = [("while", "none"), ("while", "pcall"), ("while", "xpcall"), ("while", "
          ("string_rep", "none"), ("table_insert", "pcall"), ("preprocess_plain", "none"), ("preprocess_invoke", "none"),
          ("after_nested_invoke", "none"), ("tail_recursion", "pcall"), ("mutual_recursion", "none"), ("clear_hook", "none"),
          ("rearm_hook", "none"), ("clear_hook_in_loop", "pcall"), ("while", "looping_handler"), ("while", "coroutine"),
-         ("while", "pcall_then_loop"), ("preprocess_plain", "pcall_in_loop"), ("after_nested_invoke", "pcall")]
+         ("while", "pcall_then_loop"), ("preprocess_plain", "pcall_in_loop"), ("after_nested_invoke", "pcall"),
+         ("pcall_recursion_in_loop", "none"), ("xpcall_recursion_in_loop", "pcall")]
 
 AUX = """
 local e = {}
